@@ -159,8 +159,10 @@ PROPS["C10"] = {
     "theorems": ["Narwhal.Theorems.C10"],
     "audit_files": ["Narwhal/Model/Reader.lean"],
     "expect_theorems": ["Narwhal.Reader.frames_eq_spec", "Narwhal.Reader.C10_segmentation_independent",
-                        "Narwhal.Reader.C10_payload_lengths_accepted", "Narwhal.Reader.C10_documented_errors"],
-    "suites": {"reader": {"kind": "lines", "nvh_suite": "reader", "driver_suite": "reader", "op_prefixes": ["chunks"],
+                        "Narwhal.Reader.C10_payload_lengths_accepted", "Narwhal.Reader.C10_documented_errors",
+                        "Narwhal.Reader.C10_stall_segmentation_independent", "Narwhal.Reader.C10_stall_inside_payload_times_out",
+                        "Narwhal.Reader.C10_missing_terminator_is_inside_payload"],
+    "suites": {"reader": {"kind": "lines", "nvh_suite": "reader", "driver_suite": "reader", "op_prefixes": ["chunks", "stall"],
                           "cases": {"quick": 150, "thorough": 3000}, "thorough_args": {"exhaustive": 1}, "oracle_tags": ["C10"]}},
     "rule": "byte streams of 1-6 frames (PING / BROADCAST with payloads at 1, 255-257, limit, limit+1, binary incl. LF/NUL/header-like text, truncated, "
             "bad terminator, over-long and exactly-full headers, partial header at EOF) x segmentations (whole, 1-byte, random cuts; thorough: every single "
